@@ -155,16 +155,25 @@ def jsonable_action(a, ci, depth=0):
         return {"tok": [ci.of(a), a.get_value()]}
     if inspect.isclass(a):
         return {"cls": ci.by_name.get(a.__module__ + "." + a.__qualname__, -1)}
+    if inspect.isfunction(a):
+        # multiline_structure: dAction["type"] is the module-level fix function itself
+        return {"fn": a.__name__}
     return {"repr": repr(a)[:80]}
 
 
-def violation_attrs(v):
+def violation_attrs(v, ci=None):
     """attributes a `_fix_violation` reads directly from the violation or its region:
     `_tv` = oTokens.sTokenValue (`get_token_value()`, set by get_tokens_bounded_by),
     `_ti` = oTokens.token_index (set by get_line_which_includes_tokens),
     `_iw` = violation.insert_whitespace (set by move_token.create_move_left_violation),
-    `_a`  = the action itself when it is a bare int (move_token_right_to_next_non_whitespace_token)"""
+    `_a`  = the action itself when it is a bare int (move_token_right_to_next_non_whitespace_token),
+    `_semi` = class index of violation.semicolon (set by multiline_structure._check_last_paren_new_line)"""
+    import inspect
+
     a = {}
+    sm = getattr(v, "semicolon", None)
+    if ci is not None and inspect.isclass(sm):
+        a["_semi"] = ci.by_name.get(sm.__module__ + "." + sm.__qualname__, -1)
     act = v.get_action()
     if isinstance(act, int) and not isinstance(act, bool):
         a["_a"] = act
@@ -188,7 +197,7 @@ def harvest_action(v, ci):
     """action dict + violation attributes (used by the synthetic line-structure correspondence)"""
     a = jsonable_action(v.get_action(), ci)
     a = dict(a) if isinstance(a, dict) else {}
-    a.update(violation_attrs(v))
+    a.update(violation_attrs(v, ci))
     return a
 
 
@@ -212,7 +221,7 @@ def wire(rawsnap, ci, ser):
 
 
 class Step:
-    __slots__ = ("rule", "kind", "before", "after", "edits", "tois", "remap", "exc", "fixable", "sev_error", "phase", "disabled", "wall", "changed", "index", "params")
+    __slots__ = ("rule", "kind", "before", "after", "edits", "tois", "remap", "exc", "fixable", "sev_error", "phase", "disabled", "wall", "changed", "index", "params", "found")
 
     def __init__(self):
         self.edits = None
@@ -223,6 +232,7 @@ class Step:
         self.changed = False
         self.remap = None
         self.params = None
+        self.found = None
 
 
 def instrumented_fix(oFile, rl, ci, fix_phase=7, skip_phase=None, fix_only=None, record_tois=False, on_step=None, harvest=False):
@@ -252,7 +262,7 @@ def instrumented_fix(oFile, rl, ci, fix_phase=7, skip_phase=None, fix_only=None,
                         "action": repr(v.get_action())[:200],
                         "action_data": jsonable_action(v.get_action(), ci) if harvest else None,
                         # what some base classes read from the violation / its region instead of the action
-                        "viol_attrs": violation_attrs(v) if harvest else None,
+                        "viol_attrs": violation_attrs(v, ci) if harvest else None,
                         # indent level of every OLD token of interest (token state outside the wire form; the
                         # indent family's `_fix_violation` reads it): st.before holds the token objects
                         "old_indents": ([getattr(o, "indent", None) for o, _ in st.before[ot.iStartIndex : ot.iEndIndex]] if harvest and st.before is not None and isinstance(ot.iStartIndex, int) and isinstance(ot.iEndIndex, int) else None),
@@ -317,7 +327,14 @@ def instrumented_fix(oFile, rl, ci, fix_phase=7, skip_phase=None, fix_only=None,
 
         def analyze(oF):
             if cur["step"] is not None:
-                return real_analyze(oF)
+                r = real_analyze(oF)
+                if fix_only is not None and cur["step"].kind == "fix":
+                    # what the analysis inside Rule.fix found, before --fix_only filters it
+                    try:
+                        cur["step"].found = [(v.get_line_number(), v.oTokens.iStartIndex) for v in oRule.violations]
+                    except Exception:  # noqa: BLE001
+                        cur["step"].found = None
+                return r
             st = begin(oRule, "analyze")
             cur["step"] = st
             t0 = time.time()
